@@ -81,5 +81,9 @@ Example quantifier_examples :
   /\ regex_prepare [97;123;51;125] = [97;123;51;125]
   /\ regex_prepare [97;123;51;44;53;125] = [97;123;51;44;53;125]
   /\ regex_prepare [97;123;44;51;125] = [97;92;123;44;51;92;125]
-  /\ regex_prepare [97;123;120;125] = [97;92;123;120;92;125].
+  /\ regex_prepare [97;123;120;125] = [97;92;123;120;92;125]
+  (* \p{L}+ and \x{1F600} stay (they used to come out as \p\{L\}+, which the crate rejects); \d{x} -> \d\{x\} *)
+  /\ regex_prepare [92;112;123;76;125;43] = [92;112;123;76;125;43]
+  /\ regex_prepare [92;120;123;49;70;54;48;48;125] = [92;120;123;49;70;54;48;48;125]
+  /\ regex_prepare [92;100;123;120;125] = [92;100;92;123;120;92;125].
 Proof. repeat split; vm_compute; reflexivity. Qed.
